@@ -43,9 +43,12 @@ def gen_open_case(rng, single=True):
         x0, y0, x1, y1 = oc.bbox([p])
         p = oc.translate(p, int(x - x0), 0)
         x += (x1 - x0) + reach
+        if rng.chance(1, 4):
+            # the same polyline written with repeated vertices; a Joined ring also with its first vertex repeated at the end
+            p = oc.add_dups(rng, p, et == 1)
         paths.append(p)
     return dict(ml=ml, at=rng.choice([0, 0.25, 5]), pc=0, rev=int(rng.chance(1, 5)), delta=dl,
-                groups=[dict(jt=jt, et=et, paths=paths)])
+                groups=[dict(jt=jt, et=et, paths=paths)], via=rng.choice([0, 0, 0, 1, 1, 2]))
 
 
 def slot_path(kind, n, slot, reverse=False):
@@ -126,6 +129,8 @@ def raw_cases(rng, n):
         dl = rng.choice([0.5, 1, 2.5, S / 16, S / 3, S, 3 * S]) * (1 if rng.chance(1, 2) else -1)
         if rng.chance(1, 3):
             dl = dl * (1 + rng.below(1000) / 997.0)          # unquantised deltas
+        if rng.chance(1, 5):
+            paths = [oc.add_dups(rng, q, et == 1) for q in paths]
         cs.append(dict(ml=rng.choice([0.5, 1, 2, 5, 1.7]), at=rng.choice([0, 0.25, 5, 0.1]), delta=dl, jt=rng.below(4), et=et, paths=paths))
     return cs
 
@@ -334,6 +339,12 @@ def run(ctx):
 
     # plan tie (observer) : exhaustive small scope + random mixtures
     pcs = enum_plan_cases(full=not ctx.quick) + [gen_mixture(r3, allow_polygon=True) for _ in range(B['plan_rand'])]
+    # rings written with repeated vertices / closing vertex (Group constructor model), options through the setters
+    for et in range(5):
+        for jt in (0, 2, 3):
+            for n in (2, 3, 4, 5):
+                ps = [oc.add_dups(r3, slot_path(et, n, i), et in (0, 1)) for i in range(2)]
+                pcs.append(dict(ml=r3.choice([1.0, 2.0, 5.0]), at=0.0, pc=0, rev=0, delta=10.0, via=1, groups=[dict(jt=jt, et=et, paths=ps)]))
     nbreak, _ = oc.plan_tie(ctx, T, pcs, 'C07 plan', 'c07-plan')
     ctx.cov['plan_exhaustive_scope'] = 'one group: 5 end types x {Square,Round} x path-length sequences up to 3 over {1,2,3}(+0 for Polygon) x delta {10,-10,0.75}' + \
         ('; two groups with sequences up to 2 x delta {10,-10}' if not ctx.quick else '')
@@ -358,7 +369,8 @@ def run(ctx):
     ctx.cov['distinct_nontrivial'] = len(nontriv)
     ctx.cov['rule'] = ('seeded random open polylines (1-8 points, 5 coordinate scales, self-crossing allowed, every turn >= 10 degrees from a reversal by an exact '
                        'integer test, closing turns included for Joined), all 4 joins x {Joined,Butt,Square,Round}, miter limits {0.5,1,2,5}, arc tolerances {0,0.25,5}, '
-                       '|delta| from 0.5 to 2x the path scale, both signs, ReverseSolution; a spec case is non-trivial when its sample set contains both points the '
+                       '|delta| from 0.5 to 2x the path scale, both signs, ReverseSolution, options supplied by the constructor / the setters / the setters after an '
+                       'Execute; a quarter of the paths written with repeated vertices (Joined rings also with the first vertex repeated at the end); a spec case is non-trivial when its sample set contains both points the '
                        'property requires covered and points it requires uncovered; distinct = distinct (configuration, input)')
     ctx.assumptions += [
         'binary64 arithmetic of the g++ -O1 -ffp-contract=off build equals Coq primitive floats (self-tested every run on %d operations)' % ctx.cov.get('ieee_ops_compared', 0),
